@@ -29,7 +29,7 @@ func init() {
 	registry["PARSE"] = func(c *Ctx) {
 		sc := bufio.NewScanner(os.Stdin)
 		for sc.Scan() {
-			fmt.Println(parseString(sc.Text()))
+			fmt.Println(parseString(strings.ReplaceAll(sc.Text(), `\n`, "\n")))
 		}
 	}
 }
